@@ -292,7 +292,8 @@ func build(cp gen.CPath) *canvas.Path {
 			p.CubeTo(s.P[0][0], s.P[0][1], s.P[1][0], s.P[1][1], s.P[2][0], s.P[2][1])
 		case 'A':
 			a := s.Arc
-			p.ArcTo(a.Rx, a.Ry, a.RotDeg, a.Large, a.Sweep, a.Ex, a.Ey)
+			rrx, rry := a.ReqRadii()
+			p.ArcTo(rrx, rry, a.RotDeg, a.Large, a.Sweep, a.Ex, a.Ey)
 		}
 	}
 	if cp.Closed {
